@@ -265,6 +265,17 @@ class GeomEval:
             a, b = self.ev(n.func.value), self.ev(n.args[0])
             if isinstance(a, M) and isinstance(b, M):
                 return a.dot(b)
+        if (_npcall(n, "maximum") or _npcall(n, "minimum") or _npcall(n, "clip")) and len(n.args) >= 2:
+            # clamping a per-element scalar (a norm, an area) by a constant: the result is the clamped quantity, a
+            # different function of the vertices than the unclamped one (they differ for small / large elements); it gets
+            # its own atom, so every definition that uses it is DECIDED to deviate.  max(x, 0) of a norm is the norm.
+            x = self.ev(n.args[0])
+            if isinstance(x, B) and not x.vec:
+                lo = n.args[1]
+                if _npcall(n, "maximum") and isinstance(lo, ast.Constant) and lo.value == 0:
+                    return x
+                tag = unparse(n.func).split(".")[-1] + "(" + ",".join(unparse(a).replace(" ", "")[:24] for a in n.args[1:]) + ")"
+                return B([V.atom("%s⟨%d⟩" % (tag, i)) * r for i, r in enumerate(x.rows)], False)
         if isinstance(n.func, ast.Attribute) and n.func.attr == "flatten":
             raise AnalysisError("geometry: flatten outside the vertex gather")
         raise AnalysisError("geometry: unsupported call %s" % unparse(n)[:70])
